@@ -1,10 +1,14 @@
 #!/bin/bash
-# seedrun.sh <patch.diff> <property ids...>: applies a seeded change to /repo, runs the quick checks, reverts.
-P=$1; shift
+# seedrun.sh <patch.diff> <property ids...>: applies a seeded change to a scratch worktree of /repo's HEAD
+# (VERIF_REPO points the checks at it), runs the quick checks, removes the worktree.
+P=$(readlink -f "$1"); shift
 export GOFLAGS=-mod=mod GOPROXY=off GOSUMDB=off GOTOOLCHAIN=local
-git -C /repo status --short | grep -q . && { echo "/repo not clean"; exit 2; }
-git -C /repo apply "$P" || { echo "patch does not apply"; exit 2; }
+W=$(mktemp -d /tmp/mutXXXX); rmdir $W
+git -C /repo worktree add -q --detach $W HEAD || exit 2
+if ! git -C $W apply "$P" 2>/dev/null; then
+  git -C $W apply -3 "$P" >/dev/null 2>&1 || { echo "patch does not apply"; git -C /repo worktree remove --force $W; exit 2; }
+fi
 for id in "$@"; do
-  /verif/run $id ${SEEDRUN_ARGS} 2>&1 | grep -v "^built" | cut -c1-400 | head -8
+  VERIF_REPO=$W /verif/run $id ${SEEDRUN_ARGS} 2>&1 | grep -v "^built" | cut -c1-400 | head -8
 done
-git -C /repo checkout -- . ; git -C /repo status --short
+git -C /repo worktree remove --force $W
